@@ -1,16 +1,20 @@
 """C15 - deriving a model never changes another model; field order is deterministic.
 
-Theorems (coq/Props/C15.v) are about the class-store model coq/C15/Model.v.  This module
-  * generates seeded histories of derivation / evolution operations over a pool of real Spyne
-    classes and applies them to the implementation,
-  * correspondence: replays every history on the model (coqc / vm_compute) and compares the
-    structural snapshot of every pooled class after every step, the validation verdicts on probe
-    values and the flat field order,
-  * direct oracle on the implementation alone: frame (no older class changes), fresh (the new
-    class carries exactly the requested constraints over the original's), propagation of
-    append_field / insert_field to every customized variant, declaration order (type info, XSD
-    sequence, XML and dict protocol output), caller arguments not mutated, and independence of
-    PYTHONHASHSEED (sub-processes)."""
+Theorems (coq/Props/C15.v, coq/Props/C15_src.v) are about the class-store model coq/C15/Model.v of the
+REPAIRED derivation code (proposed_fixes/C15-*.patch).  This module
+  * regenerates coq/Gen/DeriveSrc.v from the source text of the tree under check (harness/translate/derive.py)
+    and proves Props.C15 / Props.C15_src,
+  * generates seeded histories of derivation / evolution operations (structured, mostly valid, plus a
+    malformed stream the implementation must refuse) over a pool of real Spyne classes and applies them to
+    the implementation,
+  * correspondence: replays every history on the model (coqc / vm_compute) and compares the structural
+    snapshot of EVERY pooled class after EVERY step, the validation verdicts on probe values and the flat
+    field order; checks that the initial pool satisfies the hypothesis of the theorems (wfb, completeb),
+  * direct oracle on the implementation alone: frame (no older class changes; a raising operation changes
+    nothing), fresh (the new class carries exactly the requested constraints over the original's),
+    propagation of append_field / insert_field to every customized variant and to nothing else, declaration
+    order (type info, XSD sequence, XML and dict protocol output), caller arguments not mutated, Xml modifiers,
+    rendered-schema frame (forked children) and independence of PYTHONHASHSEED (sub-processes)."""
 import os, sys, json, copy, decimal, hashlib, subprocess, traceback, pickle
 import lib
 from lib import gz, gtext, glist, gbool, gopt, gpair
